@@ -40,6 +40,91 @@ PROPS["C20"] = dict(
     assumptions=["children maps hold non-nil *ValidationError values", "map iteration order is abstracted: results are compared as sorted canonical forms / multisets"],
 )
 
+
+def _fields(l):
+    import re
+    m = re.search(r" fields=(\S+)", l)
+    return set(m.group(1).split(",")) if m else set()
+
+
+def _after(l):
+    import re
+    m = re.search(r" after=(\S+)", l)
+    return m.group(1) if m else "none"
+
+
+_CACHE_TB = TB_COMMON + [
+    "float sqrt/pow of the partition calculators are not modelled: the partition count n is a validated input (harness-side replica of the documented formula; the model checks 1 <= n <= capacity, pc = capacity / n, and Capacity() = n * pc; for the default option also n = Nat.sqrt capacity)",
+    "GenericStack = list of partitions in ascending id order (C11 proves the heap-backed stack refines it); SafeMap = association list (C07)",
+    "one atomic step per public method (C08: cache-wide lock); background sweeps = explicit sweep ops, the harness calls Sweep() after every Set so that observed states are swept",
+]
+_CACHE_ASSUME = ["keys/values are ints (the code only uses == on keys)", "map iteration order is free: keys/values are compared as sorted segments whose sizes come from the model; Resize's replay order is reconstructed from the observed survivors and validated",
+                 "sweep frequency 1 h in the harness (mode A): un-swept intermediate states are covered by the theorems (all op lists), not observed"]
+
+PROPS["C01"] = dict(
+    components=[dict(name="cache", gen_args={"C01": ["profile=C01"]}, shrink_lists=False)],
+    clause_prefixes=["C01."],
+    diff_filter=lambda l: bool(_fields(l) - {"cap", "freshcap"}),
+    rule=("seeded histories of 1-80 (quick) / 1-140 (thorough) Set/Get/Contains/Delete/Sweep/Clear/Resize/view ops over key alphabets 3-40, values 0-9 (0 = zero value), "
+          "capacities 1-60 (all of 1-30), default and WithBalancedPartitions(nRoot in {1.5,2,3,4}, min in 1..capacity); three streams (uniform, delete/re-set biased, fill-then-churn). "
+          "After every mutating op the full view (Keys, Values, Len, Capacity, Get/Contains of the whole alphabet) is compared with the model. "
+          "distinct_nontrivial = distinct histories (hashed) with >=1 eviction and >=1 update or delete, or a Resize that evicts."),
+    level_text=("Proof: structural invariant WF for every reachable state (all n, pc >= 1, all histories incl. Clear/Resize), get-after-set, set/delete frame conditions, "
+                "sweep/clear/resize only forget, present => last write was a Set of that value (history theorem), views agree — kernel-checked; model tied by full-view differential runs."),
+    level_note="Trusted: Lean kernel, the hand model of fifoMapCache.go, the correspondence run; float calculators validated not modelled.",
+    trusted_base=_CACHE_TB, assumptions=_CACHE_ASSUME,
+)
+PROPS["C02"] = dict(
+    components=[dict(name="cache", gen_args={"C02": ["profile=C02"]}, shrink_lists=False)],
+    clause_prefixes=["C02."],
+    diff_filter=lambda l: bool(_fields(l) & {"len", "cap", "hint", "freshcap", "panic", "protocol"}),
+    rule=("as C01 with the delete/re-set biased stream, plus Capacity() of a fresh cache for every requested capacity 1..2000 (quick) / 1..100000 (thorough) with the default "
+          "option and sampled WithBalancedPartitions options. distinct_nontrivial counts distinct capacity checks and non-trivial histories."),
+    level_text=("Proof: Len(sweep s) <= Capacity for every reachable s (corollary of WF: each partition <= pc keys, sweep leaves <= n partitions), n*(c/n) rounding arithmetic "
+                "for the partition count of any calculator; the float calculators are tied by the capacity sweep."),
+    level_note="Trusted as C01; additionally the float sqrt/pow calculators are only validated against Nat.sqrt / the bounds on the swept range.",
+    trusted_base=_CACHE_TB, assumptions=_CACHE_ASSUME,
+)
+PROPS["C03"] = dict(
+    components=[dict(name="cache", gen_args={"C03": ["profile=C03"]}, shrink_lists=False)],
+    clause_prefixes=["C03."],
+    diff_filter=lambda l: bool(_fields(l) & {"keys", "has", "len", "panic", "protocol"}),
+    rule=("Set/Delete/Sweep/Clear histories (no Resize) biased to overflow by a few keys, updates of old keys and delete-then-re-set; the monitor keeps its own insertion "
+          "stamps from the implementation's answers and checks every ordered pair after every op. distinct_nontrivial as C01."),
+    level_text=("Proof: ghost-stamped cache; FIFO theorem over all histories (stamps monotone along partitions, sweep removes a prefix), update does not renew / re-insert renews, "
+                "no eviction while insertions <= Capacity, one overflow evicts at most one partition (<= pc entries)."),
+    level_note="Trusted as C01. 'documented number of partitions' is read as what the documented formula evaluates to in Go (see DESIGN §10).",
+    trusted_base=_CACHE_TB, assumptions=_CACHE_ASSUME,
+)
+PROPS["C13"] = dict(
+    components=[dict(name="cache", gen_args={"C13": ["profile=C13"]}, shrink_lists=False)],
+    clause_prefixes=["C13."],
+    diff_filter=lambda l: _after(l) in ("resize", "clear") or bool(_fields(l) & {"freshcap", "panic", "protocol"}),
+    rule=("histories with traffic before and after Resize/Clear; new capacities grow, shrink, keep the partition count but change the partition size, or change nothing; "
+          "Capacity() compared with a freshly built cache of the same option. distinct_nontrivial = distinct histories with a Resize (plus eviction) or evicting Resize."),
+    level_text=("Proof: for all valid replay orders — capacity, survivors keep values, nothing new, all survive if they fit, survivors are a suffix of the replay order, "
+                "WF preserved (so C01-C03 continue), Clear is observationally a new cache (bisimulation)."),
+    level_note="Trusted as C01; the calculator's (n', pc') is an input; replay order reconstructed from observed survivors and validated as a valid order.",
+    trusted_base=_CACHE_TB, assumptions=_CACHE_ASSUME,
+)
+
+PROPS["C11"] = dict(
+    components=[dict(name="stack", shrink_lists=False),
+                dict(name="stackconc", race=True, shrink=False, independent_lines=False)],
+    clause_prefixes=["C11."],
+    rule=("sequential: seeded Push/Pop/Peek/Len/Values histories of 1-120 (quick) / 1-250 (thorough) ops on stacks of initial size 0/1/2/8/64, three streams "
+          "(balanced, push-then-drain, pop-heavy/often empty), compared op by op with the heap-array model and with the FIFO-by-id specification; "
+          "concurrent (race-detector build): two-popper trials on a one-element stack and G in {2,4,8} goroutines x 20-400 mixed ops with unique values, checked for "
+          "conservation, distinct ids, panics and data-race reports. distinct_nontrivial = distinct sequential histories with >=3 pushes and >=2 non-empty pops + distinct stress configurations."),
+    level_text=("Proof: the container/heap algorithms (up/down/Push/Pop/Remove/Fix/Init, transcribed) keep the heap property and the multiset and Pop returns a minimum, for every strict weak "
+                "order and every size (termination included); GenericStack over that array refines the FIFO-by-id queue for every history. The concurrent clause is partial: the model "
+                "assumes each method is one critical section (regenerated shape facts, C07) and the race detector + stress runs search for violations."),
+    level_note=("Trusted: Lean kernel; transcription of Go's container/heap (checked only differentially); Go memory-model races are outside the sequentially consistent model — "
+                "delegated to lock-shape facts and -race stress."),
+    trusted_base=TB_COMMON + ["Go's container/heap = the transcription in TV/Model/GoHeap.lean (differential check only)", "race detector for memory-model races"],
+    assumptions=["values are tagged unique ints so that duplication/loss is visible", "stress schedules are not seeded (Go scheduler); their inputs are"],
+)
+
 HOOK_COMMITS = []
 
 _ALL = ["C%02d" % i for i in range(1, 21)]
